@@ -399,6 +399,10 @@ Model/SrcPreludeG.v; the text generated for every other unit is untouched):
   constructor IPNetwork.__init__:str with its literal defaults; `_ipv4.f(args)` = the function f translated by a unit over
   netaddr/strategy/ipv4.py (an omitted trailing parameter whose default is None and whose Coq type is unit: tt).  A local that
   stays None on the paths where no branch assigns it makes the result optional (`ip = None .. return ip`).
+* netaddr/ip/__init__.py -> pysrc_uniq_gen.v (C05: iter_unique_ips).  `def f(*xs)` with xs declared a list takes the tuple of its
+  arguments as one list parameter; a generator of exactly the shape `for x in E: for y in x: yield y` is the list of what it
+  yields: py_flat_addrs E for a list E of IPNetwork objects (`for y in x` over an IPNetwork = py_net_addrs, the hand model of
+  IPListMixin.__iter__: IPAddress(first) .. IPAddress(last) as pairs); every other generator shape is rejected by FnG.
 """
 import ast
 import os
@@ -7701,6 +7705,10 @@ SRCG_UNITS.append(
     (IPFILE, "pysrc_ipg_gen.v", "", " Base.PyStr Model.SrcPreludeStr Model.AddrText Model.SrcPreludeCtor Model.SrcPreludeSRCE Model.SrcPreludeG",
      [("IPAddress", "__repr__", {}), ("IPNetwork", "__repr__", {}), ("IPRange", "__str__", {}), ("IPRange", "__repr__", {}),
       ("IPAddress", "__oct__", {}), ("IPNetwork", "ipv4", {})]))
+SRCG_UNITS.append(
+    # C05: iter_unique_ips(*args) -- the argument tuple is one list parameter; the generator is the list of what it yields
+    (IPFILE, "pysrc_uniq_gen.v", "", " Model.Merge Model.SrcPreludeSRCE Model.SrcPreludeMerge Model.SrcPreludeG",
+     [(None, "iter_unique_ips", {"args": "list mitem"})]))
 # the constant keys of a registration record, in the order of the `orec` tuple (= the dict literal the class writes), per class
 SRCG_REC_KEYS = {"OUI": ("idx", "oui", "org", "address", "offset", "size"), "IAB": ("idx", "iab", "org", "address", "offset", "size")}
 SRCG_REC_TYPES = ("int", "str", "str", ("list", "str"), "int", "int")
@@ -7715,7 +7723,7 @@ SRCG_IDCLASS = {"oui": "OUI", "iab": "IAB"}
 COQTY.update(SRCG_TYPES)
 SRCG_RESERVED = set("irow ikeyview IKNet IKRange IKAddr py_ikey_view sdict py_sd_new py_sd_setdefault py_sd_append IANA_INFO "
                     "py_truthy py_fmt_oct py_fmt_hex py_index string append eindex py_eidx_mem py_eidx_get OUI_INDEX IAB_INDEX REGISTRY_FILE "
-                    "py_pair_of_list py_rec_set CSV_READER py_map_og py_triple_of_list py_eidx_setdefault py_eidx_append".split())
+                    "py_pair_of_list py_rec_set CSV_READER py_map_og py_triple_of_list py_eidx_setdefault py_eidx_append py_flat_addrs py_net_addrs".split())
 UNIT_PREAMBLE["pysrc_iana_gen.v"] = (
     "(* IANA_INFO[name] for the four dictionaries the module creates: the rows (key object, record) in insertion order *)\n"
     "Section WithTable.\nVariable IANA_INFO : string -> list irow.\n")
@@ -7814,6 +7822,25 @@ class SrcgPrepare(ast.NodeTransformer):
         return n
 
     def visit_FunctionDef(self, f):
+        a = f.args
+        if a.vararg is not None and not (a.args or a.kwarg or a.kwonlyargs or a.posonlyargs or a.defaults) and is_list(
+                parse_type(getattr(self.fn, "g_types", {}).get(a.vararg.arg, ""))):
+            # def f(*xs) with xs declared a list: the tuple of the arguments is one list parameter
+            a.args, a.vararg = [ast.copy_location(ast.arg(arg=a.vararg.arg), a.vararg)], None
+        body = [st for st in f.body if not (isinstance(st, ast.Expr) and isinstance(st.value, ast.Constant))]
+        lp = body[0] if len(body) == 1 and isinstance(body[0], ast.For) else None
+        inner = lp.body[0] if lp is not None and len(lp.body) == 1 and isinstance(lp.body[0], ast.For) else None
+        y = inner.body[0].value if inner is not None and len(inner.body) == 1 and isinstance(inner.body[0], ast.Expr) else None
+        if any(isinstance(n, (ast.Yield, ast.YieldFrom)) for n in ast.walk(f)) and getattr(self.fn, "variant", "") not in ("start", "next"):
+            # a generator `for x in E: for y in x: yield y` (nothing else): the list of what it yields = the addresses of the
+            # IPNetwork objects of the list E, one after the other -> return __g_flat_addrs(E); every other generator shape is rejected
+            if not (isinstance(y, ast.Yield) and isinstance(y.value, ast.Name) and isinstance(inner.target, ast.Name)
+                    and y.value.id == inner.target.id and isinstance(lp.target, ast.Name) and isinstance(inner.iter, ast.Name)
+                    and inner.iter.id == lp.target.id and lp.target.id != inner.target.id and not lp.orelse and not inner.orelse
+                    and not any(isinstance(n, ast.Name) and n.id in (lp.target.id, inner.target.id) for n in ast.walk(lp.iter))):
+                bad(f, "generator other than `for x in E: for y in x: yield y`")
+            ret = ast.copy_location(ast.Return(value=srcg_pseudo("__g_flat_addrs", [lp.iter], lp)), lp)
+            f.body = [st for st in f.body if st is not lp] + [ret]
         f = self.generic_visit(f)
         if self.outparams:                    # a dict parameter changed in place: the function answers the new dict(s)
             if any(isinstance(n, ast.Return) for n in ast.walk(f)) or len(self.outparams) != 1:
@@ -8374,6 +8401,11 @@ class FnG(FnE):
         name = f.id if isinstance(f, ast.Name) else None
         if name == "__g_sd_new":
             return ("sdict", "py_sd_new")
+        if name == "__g_flat_addrs":
+            ty, t = self.ex(node.args[0], env)           # the addresses of the IPNetwork objects of a list, block after block
+            if not (is_list(ty) and ty[1].find().t == "net"):
+                bad(node, "`for x in E: for y in x: yield y` over %s" % show(ty))
+            return (("list", Cell("objv")), "(py_flat_addrs %s)" % t)
         if name == "__g_csv_rows":
             ty, t = self.ex(node.args[0], env)
             unify(node, ty, ("list", Cell("str")), "lines handed to csv.reader")
